@@ -603,12 +603,21 @@ func racePass(tier string, viols map[string]*FoundViolation) map[string]any {
 	if tier == "thorough" {
 		iters = "3000"
 	}
-	cmd := exec.Command(bin, "-iters", iters, "-threads", "8")
-	cmd.Env = append(os.Environ(), "GORACE=halt_on_error=0")
+	// one process per driver: whatever the library initialises once per process (lazily built tables, compiled
+	// grammars) is then cold for every driver's first concurrent round, not only for the first driver's
+	nd := 0
+	if o, err := exec.Command(bin, "-list").Output(); err == nil {
+		fmt.Sscan(string(o), &nd)
+	}
 	var buf bytes.Buffer
-	cmd.Stdout, cmd.Stderr = &buf, &buf
-	cmd.Run()
+	for di := 0; di < nd; di++ {
+		cmd := exec.Command(bin, "-iters", iters, "-threads", "8", "-driver", fmt.Sprint(di))
+		cmd.Env = append(os.Environ(), "GORACE=halt_on_error=0")
+		cmd.Stdout, cmd.Stderr = &buf, &buf
+		cmd.Run()
+	}
 	text := buf.String()
+	info["processes"] = nd
 	n := strings.Count(text, "WARNING: DATA RACE")
 	info["iterations_per_thread"] = iters
 	info["goroutines_per_driver"] = 8
